@@ -2,7 +2,7 @@
 # re-evaluate every stored seed against the current checkers (patch applied to /repo and undone)
 cd "$(dirname "$0")/.."
 for d in seeded/*/; do
-  id=$(basename "$d")
+  id=$(basename "$d"); [ "$id" = refactors ] && continue
   prop=$(python3 -c "import json;print(json.load(open('$d/meta.json')).get('breaks_property') or '')" 2>/dev/null)
   python3 tools/seed_eval.py "$id" "$d" --property "$prop" --skip-verify 2>&1 | head -1
 done
